@@ -292,8 +292,10 @@ class Run:
         if action:
             self.actions[action] = self.actions.get(action, 0) + 1
 
-    def sample(self, obj, limit=6):
-        if len(self.samples) < limit:
+    def sample(self, obj, limit=12, per_kind=2):
+        kind = obj.get("kind") if isinstance(obj, dict) else None
+        n_kind = sum(1 for s in self.samples if isinstance(s, dict) and s.get("kind") == kind)
+        if len(self.samples) < limit and n_kind < per_kind:
             self.samples.append(obj)
 
     def violation(self, key, clause, detail):
